@@ -18,7 +18,9 @@ source only (python `ast`; a small tokenizer + parser for the Scala `typ` member
       every node that both sides translate is compared, under every valuation of the node flags (`product`, `joinType`).  Untranslated
       components are listed in the evidence, never reported.  Python's deep type check re-runs the same rule, so only this comparison sees a
       front-end rule that drifted from the engine's.
-  R10 the python struct primitives those rules are written with keep the field order the algebra (and TStruct.scala) assume.
+  R10 the python struct primitives those rules are written with keep the field order the algebra (and TStruct.scala) assume: decided from the
+      syntax tree of each helper as an order term (ordered union of fields(self) and fields(other), filter over self, iteration over the given
+      names, order-preserving rename); no code is evaluated on sample values.
   R5  REBUILD PATH.  `ir.subst` / `IR.map_ir` (MatrixTable.aggregate_rows) call `node.copy(*new_children)` on every node; copy must rebuild the
       same class (or a base class) and put its k-th argument back at child position k - armed only where the rebuilt node is actually constructed
       (if the constructor's own @typecheck_method is certain to reject the misplaced argument the instance is a diagnostic).
@@ -733,7 +735,9 @@ def run(ctx: Ctx) -> None:
     ctx.rule('R9', 'a Ref built for a bound variable carries the same type as the expression that wraps it', 7)
     ctx.rule('R8', 'python _compute_type and scala typ of the same Table / Matrix IR node denote the same ordered field lists and keys (per component)', 247)
     ctx.rule('R10', 'the python struct primitives the typing rules are written with (tstruct._concat/_insert_field(s)/_drop_fields/_select_fields/_rename) '
-                    'produce the field ORDER the comparison algebra and the engine assume (own evaluator of the definitions on sample structs)', 6)
+                    'produce the field ORDER the comparison algebra and the engine assume: the syntax tree of each helper is read into an order term '
+                    '(fields(self) then fields(other); comprehension over self with a membership filter; iteration over the GIVEN names; order-preserving rename) - '
+                    'nothing is evaluated on concrete values', 6)
     ctx.assume('R8/R10: TStruct.scala `++`, typeAfterSelect, filterSet, appendKey, structInsert, rename have the ordered semantics of the algebra (read, not re-derived); '
                'types of value-IR children (typeof(newRow), ...) are atoms common to both sides')
     ctx.assume('R7: an Expression X and X._ir are identified (X._ir.typ == X.dtype is the property itself, assumed for sub-expressions); cast_expr(e, T) has type T; '
